@@ -139,6 +139,14 @@ pub fn graph_to_mods(g: &Graph, ptrw: usize) -> Mods {
                 m.uses.push(ItemPath::from(mpath(g, other).as_str()));
             }
         }
+        // in half of the graphs the undefined names are also "imported" by name from a module
+        // that does not define them (a typo in a `use`, an item renamed elsewhere): still undefined
+        if (g.ntypes + g.nmodules + mi) % 2 == 0 {
+            let from = mpath(g, (mi + 1) % g.nmodules);
+            for missing in ["Missing", "MissingParam", "MissingRet", "MissingBase", "MissingExtern"] {
+                m.uses.push(ItemPath::from(format!("{from}::{missing}").as_str()));
+            }
+        }
     }
     for (e, (m, defined)) in g.enums.iter().enumerate() {
         mods[*m].definitions.push(ItemDefinition::new(
@@ -731,6 +739,8 @@ pub struct BindCase {
     pub builtin_name: bool,
     pub consumer: usize,
     pub ptrw: usize,
+    /// bit i set: provider i keeps its definition private (which changes nothing about binding)
+    pub private_mask: u8,
 }
 
 pub fn bind_mods(c: &BindCase) -> Mods {
@@ -738,7 +748,8 @@ pub fn bind_mods(c: &BindCase) -> Mods {
     let sized = |k: usize| TypeDefinition::new([TypeStatement::field((Visibility::Public, "w"), Type::ident("u64").array(k))]).with_attributes([Attribute::align(8)]);
     let mut mods: Mods = vec![];
     for i in 0..3 {
-        let m = Module::new().with_definitions([ItemDefinition::new((Visibility::Public, name), sized(i + 1))]);
+        let vis = if c.private_mask & (1 << i) != 0 { Visibility::Private } else { Visibility::Public };
+        let m = Module::new().with_definitions([ItemDefinition::new((vis, name), sized(i + 1))]);
         mods.push((ItemPath::from(provider_path(i)), m));
     }
     let mut m = Module::new();
@@ -920,12 +931,15 @@ pub fn run_c11(ctx: &mut Ctx) {
                     for builtin_name in [false, true] {
                         for consumer in 0..3 {
                             for ptrw in [4usize, 8] {
+                                // which providers are private rotates through the product
+                                let private_mask = [0u8, 0b001, 0b010, 0b100, 0b011, 0b111][cases.len() % 6];
                                 cases.push(BindCase {
                                     uses: uses.clone(),
                                     local,
                                     builtin_name,
                                     consumer,
                                     ptrw,
+                                    private_mask,
                                 });
                                 if local && uses.len() <= 2 {
                                     // the module also imports its own definition by name, before
@@ -937,7 +951,7 @@ pub fn run_c11(ctx: &mut Ctx) {
                                         } else {
                                             u.insert(0, (4, true));
                                         }
-                                        cases.push(BindCase { uses: u, local, builtin_name, consumer, ptrw });
+                                        cases.push(BindCase { uses: u, local, builtin_name, consumer, ptrw, private_mask: (cases.len() % 8) as u8 });
                                     }
                                 }
                             }
@@ -964,6 +978,7 @@ pub fn run_c11(ctx: &mut Ctx) {
             builtin_name: rng.chance(1, 3),
             consumer: rng.below(3),
             ptrw: *rng.pick(&[4, 8]),
+            private_mask: rng.below(8) as u8,
         });
     }
     // names of GENERATED vftable structs take part in the same rules: imported by name they win,
